@@ -61,7 +61,7 @@ func genNarrowCtx(r *plan.Rng, maxPrec uint32) plan.Ctx {
 }
 
 var trapOps = []string{"Add", "Sub", "Mul", "Quo", "QuoInteger", "Rem", "Pow", "Cmp",
-	"Abs", "Neg", "Round", "Sqrt", "Cbrt", "Exp", "Ln", "Log10", "RoundToIntegralValue", "RoundToIntegralExact", "Ceil", "Floor", "Reduce", "Quantize", "CtxSetString"}
+	"Abs", "Neg", "Round", "Sqrt", "Cbrt", "Exp", "Ln", "Log10", "RoundToIntegralValue", "RoundToIntegralExact", "Ceil", "Floor", "Reduce", "Quantize", "CtxSetString", "CtxNewFromString"}
 var trapHeavy = []string{"Sqrt", "Cbrt", "Exp", "Ln", "Log10", "Pow"}
 
 // genTrapOperand draws operands that make transcendental functions take their
